@@ -61,6 +61,11 @@ class C07(Check):
             p_indicator_bounds=0.6,
             objectives=OBJECTIVES, n_objectives=(2, 3) if multi else (1, 1),
         )
+        if multi and rng.random() < 0.3:
+            # weighted-sum scenario: every objective is an indicator with declared two-sided bounds, so that the
+            # sum itself has computable extreme values (where a shortcut on "the bound is reached" would sit)
+            d = rng.choice(["MinimizeIndicator", "MaximizeIndicator"])
+            prof = dict(prof, indicators=["FromMathExpression"], n_indicators=(2, 3), p_indicator_bounds=1.0, objectives=[d], n_objectives=(2, 3))
         if rng.random() < 0.2:
             # due-date scenario: the objective is one of the due-date indicators, whose optimum may be
             # zero or (maximum lateness) negative.  No optional tasks: what these indicators count for an
@@ -68,6 +73,10 @@ class C07(Check):
             prof = dict(prof, p_optional=0.0, p_due=0.7, indicators=["Tardiness", "Earliness", "NumberOfTardyTasks", "MaximumLateness", "MaximumLateness"],
                         n_indicators=(1, 2), objectives=["MinimizeIndicator", "MinimizeIndicator", "MaximizeIndicator"], slack=(2, 8))
         spec = gen.gen_spec(keyed_rng(run_seed, "spec"), prof)
+        if prof.get("p_indicator_bounds") == 1.0 and len(spec["objectives"]) > 1 and keyed_rng(run_seed, "negw").random() < 0.5:
+            # weighted-sum scenario: one term out of two runs against the others
+            o = spec["objectives"][-1]
+            o["weight"] = -abs(o.get("weight", 1))
         if not spec["objectives"]:
             spec["objectives"] = [{"kind": "MinimizeMakespan"}]
         if multi:
@@ -131,6 +140,20 @@ class C07(Check):
                     env.append({})
                 if "verdict" not in env[0]:
                     env[0] = dict(env[0], steer={"mode": "pin", "pins": {"OBJ": far if rng.random() < 0.7 else near}, "tag": "bound"})
+                plan["fault_free"] = False
+        if nobj > 1:
+            inds = [next((i for i in spec["indicators"] if i["id"] == o.get("indicator")), None) for o in spec["objectives"]]
+            env0 = (stepA.get("env") or [{}])[0]
+            if all(i is not None and i.get("bounds") and None not in i["bounds"] for i in inds) and "verdict" not in env0 and rng.random() < 0.8:
+                # first incumbent of the weighted sum on sum(w*lo) / sum(w*hi) (mostly the one that looks like
+                # "the bound in the direction of the optimisation") or on 0
+                ws = [o.get("weight", 1) for o in spec["objectives"]]
+                slo, shi = (sum(w * i["bounds"][k] for w, i in zip(ws, inds)) for k in (0, 1))
+                first = slo if direction == "min" else shi
+                env = stepA.setdefault("env", [])
+                if not env:
+                    env.append({})
+                env[0] = dict(env[0], steer={"mode": "pin", "pins": {"OBJ": rng.choice([first, first, first, slo, shi, 0])}, "tag": "sum-bound"})
                 plan["fault_free"] = False
         if nobj == 1 and "env" not in stepA and rng.random() < 0.25:
             # a first model whose objective value is exactly 0 - where hand-written bounds and guards tend to sit
